@@ -15,6 +15,7 @@ def seeded_table():
         note=''
         if r2 is not None and own not in r1: note=' (own check extended)'
         if not final: note=' **missed**'
+        if not final and 'thorough tier' in m.get('note',''): note=' quick tier: none; thorough tier: C04'
         rows.append('| %s | %s | %s%s |' % (d, m.get('one_line','').replace('|','\\|'), ' '.join(final) if final else '—', note))
     return '\n'.join(['| id | change (what it needs to manifest) | quick checks that fire |','|----|----|----|']+rows)
 if __name__=='__main__':
